@@ -186,6 +186,17 @@ impl std::fmt::Debug for Tracked {
     }
 }
 
+impl serde::Serialize for Tracked {
+    fn serialize<S: serde::Serializer>(&self, s: S) -> Result<S::Ok, S::Error> {
+        s.serialize_u32(self.label)
+    }
+}
+impl<'de> serde::Deserialize<'de> for Tracked {
+    fn deserialize<D: serde::Deserializer<'de>>(d: D) -> Result<Tracked, D::Error> {
+        <u32 as serde::Deserialize>::deserialize(d).map(Tracked::new)
+    }
+}
+
 /// Zero-sized element with drop side effects: only counts can be observed.
 pub struct TrackedZst;
 impl TrackedZst {
